@@ -8,8 +8,10 @@ Times are nanoseconds since the Unix epoch, prices/accumulators raw `Dec`s.
   arith|geom <nowNs> <startNs> <endNs> <quoteIsAsset0 01>  -> ok <value> <flag01> | err | panic
   spot <q0> <q1> <prevErrNs> <nowNs> -> <sp0> <sp1> <latestErrNs> | panic   (getSpotPrices; q = raw BigDec | e | nil | E<raw>)
   dump                                   -> <recent>|<record>;<record>;…
+  exportimport                           -> ok | panic   (panic = Validate rejects an exported record; state unchanged)
 -/
 import OsmoVerif.Model.Twap
+import OsmoVerif.Model.TwapGenesis
 namespace OsmoVerif.Twap
 
 structure DrvState where
@@ -73,6 +75,11 @@ def stepTwap (st : DrvState) (op : String) (args : List String) : DrvState × St
       | some (a, b, e) => (st, s!"{a} {b} {e}")
       | none => (st, "panic")
     | _, _, _, _ => (st, "bad-op")
+  -- real ExportGenesis (records of this pair), the pair's keys wiped, real InitGenesis (Model/TwapGenesis.lean)
+  | "exportimport", [] =>
+    match exportImport st.s with
+    | none => (st, "panic")
+    | some s' => ({ s := s' }, "ok")
   | "dump", [] =>
     (st, (match st.s.recent with | some r => showRec r | none => "-") ++ "|" ++ ";".intercalate (st.s.hist.map showRec))
   | _, _ => (st, "bad-op")
